@@ -29,7 +29,9 @@ FR = ['>>> ', '... ', '>>>', '...', '\n', '    ', 'x = 1', '(', ')', '[', ']', "
       # whitespace that str.strip() removes but that is neither a blank nor a line break for splitlines()
       '\x1f', '\xa0',
       # google section headers written with blanks before the colon / with a double colon (both are recognised headers)
-      'Example :\n    ', 'Returns :\n    x\n', 'Example ::\n    >>> ']
+      'Example :\n    ', 'Returns :\n    x\n', 'Example ::\n    >>> ',
+      # a compound statement whose suite holds nothing but a comment
+      '>>> if x:\n...     # todo\n', '>>> def f():\n>>>     # todo\n']
 # the fragments that carry the grammar of doctests (prompts, continuation, brackets, quotes, a directive, a block header):
 # deep strings are enumerated over these only
 CORE = ['>>> ', '... ', '>>>', '...', '\n', '    ', 'x = 1', '(', ')', "'", '"""', '\\', '# xdoctest: +SKIP', 'def f():',
@@ -96,6 +98,25 @@ def check_string(s, embed, fails, counters):
                 # as a whole either yields the examples of its intact google blocks or is reported
                 fails.append((key, [{'sig': 'examples:broken-docstring-silently-dropped', 'msg': '%s %r' % (style, s)}], {'string': s}))
             if style == 'freeform':
+                # whatever was accepted as an example is Python as far as the grammar goes (the parser validates the source of
+                # every chunk with ast.parse; a text it lets through must stand that test as a whole as well)
+                for e in exs:
+                    try:
+                        srcs = ['\n'.join(p.exec_lines) for p in e._parts]
+                    except Exception:
+                        srcs = []
+                    for src_ in srcs:
+                        if '\x00' in src_:
+                            continue        # a NUL is refused by ast.parse whatever surrounds it (also inside a comment)
+                        try:
+                            import ast
+                            ast.parse(src_)
+                        except SyntaxError as syn:
+                            fails.append((key, [{'sig': 'examples:accepted-although-not-python',
+                                                 'msg': 'the example collected from %r holds the part %r: %r' % (s, src_, syn)}], {'string': s}))
+                            break
+                        except (ValueError, RecursionError, MemoryError):
+                            pass
                 # whatever was accepted as an example must be *runnable*: a run asked to return errors returns
                 for e in exs:
                     e.mode = 'native'
